@@ -123,10 +123,11 @@ Definition oracle_value (ps : list Z) (vs outs : list (list Z)) : Z :=
   ob (walk n B (repeat enone nregs) p outs true).
 
 (* ---- 16003: encode -> decode is the identity to within the element type's precision.
-        output: max error in units of 2^-52 relative to max(1, |x|_max); envelope 8 * log2(n) + 8 ulps ---- *)
+        output: max error in units of 2^-52 relative to max(1, |x|_max); envelope 2 * log2(n) + 4 ulps
+        (log2 m butterfly levels each way, <= 1 ulp each; measured maximum 5 ulps at 4096 slots) ---- *)
 Definition oracle_encdec (ps : list Z) (outs : list (list Z)) : Z :=
   let e := nthz (nth 0 outs []) 0 in
-  ob ((0 <=? e) && (e <=? 8 * (nthz ps 0 + 1) + 8)).
+  ob ((0 <=? e) && (e <=? 2 * (nthz ps 0 + 1) + 4)).
 
 Definition run_c16 (code : Z) (ps : list Z) (vs : list (list Z)) : option (list (list Z)) :=
   match code with
